@@ -244,7 +244,7 @@ func (st *wstate) checkClean(i int, l *scen.Lifetime, lf *model.Life, rep *scen.
 			}
 		}
 		for _, id := range sum.Tests {
-			if f, ok := appended[id]; ok && obsIDs[id] == 0 && !freeIDs[id] && !plan.MaybeDirtyElsewhere(id, f) {
+			if f, ok := appended[id]; ok && obsIDs[id] == 0 && !freeIDs[id] && !plan.MaybeDirtyElsewhere(id, f) && !st.corrupted[f] {
 				vv := viol("clean-listed-appended-entry", i, -1, id, []string{"C07"}, "Clean lists entry [%s] as obsolete although a Match* call of this very process appended it to %s", id, f)
 				vv.File = f
 				if st.hit(vv) {
